@@ -671,4 +671,28 @@ Proof.
       pose proof (pass2S_guess_assert m banks defs mb K opt true ns Ha _ _ _ _ _ _ HT1). discriminate.
     + rewrite (run_pass_agree_no_assert m banks defs mb ns _ _ Ha EFc). rewrite EFc. reflexivity.
 Qed.
+(* the unoptimised run cannot succeed where the optimised one fails, in the one-pass situation at budgets >= 2; for
+   b >= 3 this uses the replay lemma (Proofs/ResolverS2FrameP.v) as hypothesis FL *)
+Lemma one_pass_bwd2 b x F T : one_pass2 b x F T -> (2 <= b)%nat ->
+  ((3 <= b)%nat -> forall x2, PS true false x = Ok (x2, Resolved) -> INV x2 -> PF false (ss x2) = Ok (ss x2, Resolved)) ->
+  forall st n, F = Ok (st, n) -> exists x', T = Ok (x', 1%nat) /\ ss x' = st /\ n = 2%nat.
+Proof.
+  intros (x2 & Hb & HI2 & HT1 & HF1 & HT & HF) Hb2 FL st n HFok.
+  assert (E1 : Nat.eqb 1 b = false) by (apply Nat.eqb_neq; lia). rewrite E1 in *. subst F T.
+  pose proof (whole_pass2 false true x2 HI2) as H.
+  destruct b as [|[|[|k]]]; try lia.
+  - (* b = 2 *)
+    change (2 - 1)%nat with 1%nat in HFok. cbn [loop2] in HFok. change (Nat.eqb 2 2) with true in HFok.
+    destruct (PF true (ss x2)) as [[stc rF]| |]; try discriminate. destruct rF; [|discriminate].
+    inversion HFok; subst st n; clear HFok.
+    destruct H as (x' & rT & HT' & Hss & _ & Heq & _). rewrite HT'. rewrite (Heq (andb_false_r _)). eauto.
+  - (* b >= 3 *)
+    replace (S (S (S k)) - 1)%nat with (S (S k)) in HFok by lia. cbn [loop2] in HFok.
+    assert (E2 : Nat.eqb 2 (S (S (S k))) = false) by reflexivity. rewrite E2 in HFok.
+    rewrite (FL ltac:(lia) x2 HT1 HI2) in HFok.
+    destruct (PF true (ss x2)) as [[stc rF]| |]; try discriminate. destruct rF; [|discriminate].
+    inversion HFok; subst st n; clear HFok.
+    destruct H as (x' & rT & HT' & Hss & _ & Heq & _). rewrite HT'. rewrite (Heq (andb_false_r _)). eauto.
+Qed.
+
 End Loop2.
